@@ -531,9 +531,10 @@ class Text(JupyterMixin):
 
     def __rich_measure__(self, console: "Console", max_width: int) -> Measurement:
         text = self.plain
-        if not text.strip():
-            return Measurement(cell_len(text), cell_len(text))
         max_text_width = max(cell_len(line) for line in text.split("\n"))
+        if not text.strip():
+            # no words: the widest line is all there is to measure
+            return Measurement(max_text_width, max_text_width)
         min_text_width = max(cell_len(word) for word in text.split())
         return Measurement(min_text_width, max_text_width)
 
